@@ -57,6 +57,13 @@ class ModeSys(System):
                 if subs:
                     h.iterappend(subs)
                 h = darr.RaggedArray(self.path)      # default mode
+            elif route == 'copy':          # RaggedArray.copy with its default access mode (read-only)
+                sp = os.path.join(self.root, 'src.darr')
+                src = darr.create_raggedarray(sp, atom=(), dtype=self.dtype, accessmode='r+', metadata=meta)
+                if subs:
+                    src.iterappend(subs)
+                h = src.copy(self.path)
+                snapshot._rmtree(sp)
             elif route == 'createro':
                 if subs:
                     h = darr.asraggedarray(self.path, subs, dtype=self.dtype, accessmode='r', metadata=meta)
@@ -107,6 +114,8 @@ class ModeSys(System):
         ops += [('trunc', 0), ('trunc', -1), ('delete',)]
         ops += [('meta', 'update'), ('meta', 'set'), ('meta', 'pop'), ('meta', 'popitem'), ('meta', 'del')]
         ops += [('mode', 'r'), ('mode', 'r+'), ('reopen_default',), ('reopen_rw',), ('metamode', 'r'), ('metamode', 'r+')]
+        if arr:
+            ops += [('badopen',)]
         return ops, dis
 
     # ------------------------------------------------------------------ step
@@ -123,6 +132,18 @@ class ModeSys(System):
         newm = self.copy_model()
         valid = True          # would the call be valid in mode r+ ?
         effect = None         # predicate on the handle, evaluated after a successful call
+        if kind == 'badopen':
+            # a refused open (invalid access mode) must leave the handle exactly as it was; what it may break is the
+            # enforcement of the mode by LATER operations, which the graph explores from the state it leaves behind
+            def bad():
+                with h.open_array(accessmode='rw'):
+                    pass
+            what, val = outcome_of(bad)
+            label = what if what == 'returns' else f'raises:{exc_class(val)}'
+            if what == 'returns':
+                return StepResult(label, [viol('mode', opdesc, pre, 'invalid access mode accepted', "open_array(accessmode='rw') returned")],
+                                  diverged=True)
+            return StepResult(label)
         if kind == 'metamode':
             what, val = outcome_of(lambda: setattr(h.metadata, 'accessmode', op[1]))
             label = what if what == 'returns' else f'raises:{exc_class(val)}'
